@@ -11,6 +11,7 @@ import (
 	"go/parser"
 	"go/token"
 	"go/types"
+	"regexp"
 	"sort"
 	"strings"
 
@@ -225,7 +226,11 @@ func (fr *Frame) compile(cl *Clause, loop *Loop, extraTypes map[string]types.Typ
 		}
 		sb.WriteString(n + " " + types.TypeString(nameTypes[n], fr.qualifier()))
 	}
-	sb.WriteString(") { _ = (" + text + ") }")
+	if cl.Kind == "lemma" {
+		sb.WriteString(") { " + text + " }")
+	} else {
+		sb.WriteString(") { _ = (" + text + ") }")
+	}
 	fname := fmt.Sprintf("contract[%s %s]", shortKey(fr.key), x.P.posStr(cl.Pos))
 	lit, err := parser.ParseExprFrom(x.P.Fset, fname, sb.String(), 0)
 	if err != nil {
@@ -251,7 +256,12 @@ func (fr *Frame) compile(cl *Clause, loop *Loop, extraTypes map[string]types.Typ
 		cfail("%s: contract of %s does not type-check: %v\n    %s", x.P.posStr(cl.Pos), shortKey(fr.key), err, text)
 	}
 	fl := lit.(*ast.FuncLit)
-	body := fl.Body.List[0].(*ast.AssignStmt).Rhs[0]
+	var body ast.Expr
+	if es, ok := fl.Body.List[0].(*ast.ExprStmt); ok {
+		body = es.X
+	} else {
+		body = fl.Body.List[0].(*ast.AssignStmt).Rhs[0]
+	}
 	comp := &Compiled{lit: fl, info: info, names: names, body: body, resultType: info.Types[body].Type, nameTypes: nameTypes}
 	fr.compiled[cl] = comp
 	return comp
@@ -341,6 +351,26 @@ func (fr *Frame) localValue(v *types.Var, hdr *ssa.BasicBlock, st *State) *Term 
 	if t := try(hdr, true); t != nil {
 		return t
 	}
+	// index variable of `for i := range s`: i is (hidden range index)+1, computed in the header
+	if l := fr.li.ByHeader[hdr]; l != nil {
+		for b := range l.Blocks {
+			for _, ins := range b.Instrs {
+				dr, ok := ins.(*ssa.DebugRef)
+				if !ok || dr.Object() != v || dr.IsAddr {
+					continue
+				}
+				if inc, ok := dr.X.(*ssa.BinOp); ok && inc.Op == token.ADD && inc.Block() == hdr {
+					if phi, ok := inc.X.(*ssa.Phi); ok && phi.Block() == hdr && phi.Comment == "rangeindex" {
+						if k, ok := inc.Y.(*ssa.Const); ok {
+							if pv, ok := st.regs[phi]; ok {
+								return x.c.BVBin("bvadd", pv, x.constTerm(k))
+							}
+						}
+					}
+				}
+			}
+		}
+	}
 	for b := hdr.Idom(); b != nil; b = b.Idom() {
 		if t := try(b, false); t != nil {
 			return t
@@ -383,6 +413,58 @@ func (fr *Frame) evalClauseAt(cl *Clause, st *State, loop *Loop, extra map[strin
 		}
 	}
 	return t
+}
+
+// applyLemma: a `lemma F(args)` clause is a ghost call of the contracted
+// function F at this point: its requires become obligations, its ensures are
+// assumed. F itself is verified like any other function under contract.
+func (fr *Frame) applyLemma(cl *Clause, st *State, g *Term, loop *Loop, extra map[string]*Term) {
+	x := fr.x
+	comp := fr.compile(cl, loop, nil)
+	call, ok := ast.Unparen(comp.body).(*ast.CallExpr)
+	if !ok {
+		cfail("%s: lemma clause must be a call F(args): %s", x.P.posStr(cl.Pos), cl.Text)
+	}
+	var fobj types.Object
+	switch f := ast.Unparen(call.Fun).(type) {
+	case *ast.Ident:
+		fobj = comp.info.Uses[f]
+	case *ast.SelectorExpr:
+		fobj = comp.info.Uses[f.Sel]
+	}
+	fn, ok := fobj.(*types.Func)
+	if !ok {
+		cfail("%s: lemma clause does not name a function: %s", x.P.posStr(cl.Pos), cl.Text)
+	}
+	key := funcObjKey(fn)
+	fc := x.P.Contracts[key]
+	sfn := x.P.lookupFunc(fn)
+	if fc == nil || sfn == nil {
+		cfail("%s: lemma function %s has no contract", x.P.posStr(cl.Pos), key)
+	}
+	env := fr.newEnv(comp, st, loop, extra, cl)
+	fr.quiet++
+	var args []*Term
+	for _, a := range call.Args {
+		args = append(args, env.eval(a))
+	}
+	fr.quiet--
+	var names []string
+	for _, p := range sfn.Params {
+		names = append(names, p.Name())
+	}
+	if cl.Label == "old" && fr.entry != nil {
+		// lemma about the entry state's memory (facts about old(...) specification terms)
+		st2 := st.clone()
+		st2.mem = map[string]*Term{}
+		for k, v := range fr.entry.mem {
+			st2.mem[k] = v
+		}
+		st2.ep = fr.entry.ep
+		fr.applyContract(st2, g, fc, sfn, sfn.Signature, names, args, cl.Pos)
+		return
+	}
+	fr.applyContract(st, g, fc, sfn, sfn.Signature, names, args, cl.Pos)
 }
 
 func (env *Env) typeOf(e ast.Expr) types.Type {
@@ -786,6 +868,11 @@ func (env *Env) evalCall(e *ast.CallExpr) *Term {
 	if fc := x.P.Contracts[key]; fc != nil && fc.Recursive > 0 {
 		return env.fr.applyRecursive(env.st, sfn, fc, args)
 	}
+	if fc := x.P.Contracts[key]; fc != nil {
+		if r, ok := env.fr.opaqueApp(fc, sfn, args); ok {
+			return r
+		}
+	}
 	// run as pure function on a scratch copy of the state (no effects leak)
 	scratch := env.st.clone()
 	r := env.fr.inlineCall(scratch, c.True(), sfn, args, nil, true)
@@ -907,6 +994,8 @@ func (env *Env) evalComposite(e *ast.CompositeLit) *Term {
 
 // ---------- assigns targets ----------
 
+var elemFieldRe = regexp.MustCompile(`^elems\((.*)\)\.([A-Za-z_][A-Za-z0-9_]*)$`)
+
 func splitTopLevel(s string) []string {
 	var out []string
 	depth := 0
@@ -964,6 +1053,43 @@ func (fr *Frame) evalTargets(cl *Clause, st *State, loop *Loop, extra map[string
 		}
 		if _, isGhostT := fr.ghostTypes[txt]; isGhostT {
 			out = append(out, target{kind: "ghost", name: txt})
+			continue
+		}
+		if m := elemFieldRe.FindStringSubmatch(txt); m != nil {
+			// elems(s).f : field f of every element of slice s
+			sc := &Clause{Kind: "target", Text: m[1], Pos: tc.Pos}
+			if cached, ok := fr.targetCache[tc]; ok && len(cached) == 1 {
+				sc = cached[0]
+			} else {
+				fr.targetCache[tc] = []*Clause{sc}
+			}
+			comp := fr.compile(sc, loop, nil)
+			env := fr.newEnv(comp, st, loop, extra, sc)
+			fr.quiet++
+			sv := env.eval(comp.body)
+			fr.quiet--
+			sl, ok := comp.resultType.Underlying().(*types.Slice)
+			if !ok {
+				cfail("%s: elems(...) needs a slice: %s", x.P.posStr(cl.Pos), txt)
+			}
+			stt, ok := sl.Elem().Underlying().(*types.Struct)
+			if !ok {
+				cfail("%s: elems(s).f needs a slice of structs: %s", x.P.posStr(cl.Pos), txt)
+			}
+			found := false
+			for i := 0; i < stt.NumFields(); i++ {
+				if stt.Field(i).Name() == m[2] {
+					found = true
+					if !x.ti.isLeaf(stt.Field(i).Type()) {
+						cfail("%s: elems(s).f: field %s is not a scalar", x.P.posStr(cl.Pos), m[2])
+					}
+					out = append(out, target{kind: "elemfield", sort: x.ti.sortOf(stt.Field(i).Type()), addr: x.c.SlPtr(sv), fld: i,
+						lo: x.c.SlOff(sv), hi: x.c.BVBin("bvadd", x.c.SlOff(sv), x.c.SlLen(sv))})
+				}
+			}
+			if !found {
+				cfail("%s: no field %s in element type of %s", x.P.posStr(cl.Pos), m[2], m[1])
+			}
 			continue
 		}
 		if strings.HasPrefix(txt, "elems(") || strings.HasPrefix(txt, "mapof(") {
@@ -1102,6 +1228,22 @@ func (fr *Frame) assignSorts(cl *Clause, sorts, ghosts map[string]bool, all *boo
 					panic(r)
 				}
 			}()
+			if m := elemFieldRe.FindStringSubmatch(txt); m != nil {
+				sc := &Clause{Kind: "target", Text: m[1], Pos: tc.Pos}
+				comp := fr.compile(sc, nil, nil)
+				if sl, ok := comp.resultType.Underlying().(*types.Slice); ok {
+					if stt, ok := sl.Elem().Underlying().(*types.Struct); ok {
+						for i := 0; i < stt.NumFields(); i++ {
+							if stt.Field(i).Name() == m[2] {
+								x.leafSorts(stt.Field(i).Type(), sorts)
+								return
+							}
+						}
+					}
+				}
+				*all = true
+				return
+			}
 			if strings.HasPrefix(txt, "elems(") || strings.HasPrefix(txt, "mapof(") {
 				comp := fr.compile(tc, nil, nil)
 				call := ast.Unparen(comp.body).(*ast.CallExpr)
